@@ -7,6 +7,7 @@
 import CircuitModel.Conc.RC
 import CircuitModel.Conc.Gauge
 import CircuitModel.Conc.Trans
+import CircuitModel.Conc.TC
 import CircuitModel.Basic
 namespace CM
 open Conc
@@ -216,5 +217,112 @@ def suiteTrTrans (kvs : List (String × String)) (lines : List (String × String
   let jobs : List Conc.Trans.Job := ((kvGet kvs "ops").getD "").toList.map fun ch =>
     if ch == 'O' || ch == 'F' then .open else if ch == 'C' then .close true false else .close false true
   (TrTrans.conform (Conc.Trans.init false false (kvBool kvs "init" false) jobs) (lines.map (·.1))).map fun r => r ++ "\t-"
+
+end CM
+
+/-! ### tc -/
+namespace CM
+open Conc
+namespace TrTC
+open Conc.TC
+
+def expected (s : Shared) (l : Local) : Option String :=
+  match l.pc with
+  | .begin => (match l.job with | .check _ => some s!"load tc.isFastFail -> {s.fastFail}" | _ => none)
+  | .rlock => some "rlock tc.mu"
+  | .runlock _ => some "runlock tc.mu"
+  | .wlock => some "lock tc.mu"
+  | .critical => none
+  | .loadAllow => some s!"load tc.eventCountToAllow -> {s.allow}"
+  | .resetLoadSleep _ _ => some s!"load tc.sleepDuration -> {s.sleep}"
+  | .resetStoreFF _ _ => some "store tc.isFastFail true"
+  | .resetAddVersion _ _ => some s!"add tc.isFailFastVersion 1 -> {s.version + 1}"
+  | .resetArm _ _ => some s!"load tc.sleepDuration -> {s.sleep}"
+  | .wunlock _ => some "unlock tc.mu"
+  | .cbLoadVersion _ => some s!"load tc.isFailFastVersion -> {s.version}"
+  | .cbStoreFF => some "store tc.isFastFail false"
+  | .done _ => none
+
+def silentPc (l : Local) : Bool :=
+  match l.pc, l.job with
+  | .critical, _ => true
+  | .begin, .start _ => true
+  | .begin, .fire _ => true
+  | _, _ => false
+
+def advanceSilent (c : Config Shared Local) (i : Nat) : Nat → Config Shared Local
+  | 0 => c
+  | fuel + 1 =>
+    match c.locals[i]? with
+    | some l => if silentPc l then
+        (match step i c.shared l with
+         | some (s', l') => advanceSilent { shared := s', locals := c.locals.set i l' } i fuel
+         | none => c)
+      else c
+    | none => c
+
+structure St where
+  c : Config Shared Local
+  timerTid : Nat
+  fired : Nat            -- callbacks the timer thread has started so far
+  cur : Option Nat       -- model thread currently standing for the timer thread
+
+def conform (st : St) : List String → List String
+  | [] => []
+  | line :: rest =>
+    match line.splitOn " " with
+    | tidS :: toks =>
+      let body := " ".intercalate toks
+      if !(body.splitOn " ").any (fun t => t.startsWith "tc.") then "skip" :: conform st rest else
+      match tidS.toNat? with
+      | none => "bad-line" :: conform st rest
+      | some tid =>
+        -- the timer thread runs one callback after the other: each is a fresh model thread `fire k`
+        let (st, idx) : St × Nat :=
+          if tid == st.timerTid then
+            (match st.cur.bind (fun i => st.c.locals[i]?.bind fun l => match l.pc with | .done _ => none | _ => some i) with
+             | some i => (st, i)
+             | none =>
+               let i := st.c.locals.length
+               ({ st with c := { st.c with locals := st.c.locals ++ [{ job := .fire st.fired }] }, fired := st.fired + 1, cur := some i }, i))
+          else (st, tid)
+        let c := advanceSilent st.c idx 4
+        match c.locals[idx]? with
+        | none => s!"MISMATCH no such thread {tid}" :: conform { st with c := c } rest
+        | some l =>
+          match expected c.shared l with
+          | none => s!"MISMATCH model expects nothing from thread {tid} (pc done) but the code did: {body}" :: conform { st with c := c } rest
+          | some e =>
+            if e != body then s!"MISMATCH thread {tid}: model expects [{e}] code did [{body}]" :: conform { st with c := c } rest
+            else match step idx c.shared l with
+              | some (s', l') => "ok" :: conform { st with c := { shared := s', locals := c.locals.set idx l' } } rest
+              | none => "MISMATCH model step disabled" :: conform { st with c := c } rest
+    | _ => "bad-line" :: conform st rest
+
+/-- apply a whole job sequentially (set-up done before the scheduled run) -/
+def runJob (s : Shared) (j : Job) : Shared :=
+  let rec go (s : Shared) (l : Local) : Nat → Shared
+    | 0 => s
+    | f + 1 => match step 0 s l with | some (s', l') => go s' l' f | none => s
+  go s { job := j } 20
+
+end TrTC
+
+/-- header of the `tc` scenario: k= budget= mode=(period|asleep) armed=(0|1) restart=(0|1); sleep is 1000 -/
+def suiteTrTC (kvs : List (String × String)) (lines : List (String × String)) : List String :=
+  let k := kvNat kvs "k" 2
+  let mode := (kvGet kvs "mode").getD "period"
+  let armed := kvBool kvs "armed" false
+  let s0 : Conc.TC.Shared := { sleep := 1000, allow := kvInt kvs "budget" 1 }
+  -- the set-up the scenario performs before the scheduled run
+  let s1 := if mode == "asleep" then TrTC.runJob s0 (.start 100) else if armed then TrTC.runJob s0 (.start (-2000)) else s0
+  let preFired := (mode == "asleep" && armed) || (mode != "asleep" && armed)
+  let s2 := if preFired then TrTC.runJob s1 (.fire 0) else s1
+  let s2 := { s2 with events := [] }
+  let checks : List Conc.TC.Job := (List.range k).map fun (i : Nat) => Conc.TC.Job.check (100 + 37 * (i : Int))
+  let jobs := checks ++ [.fire 0] ++ (if kvBool kvs "restart" false && mode == "asleep" then [.start 150] else [])
+  let locals : List Conc.TC.Local := jobs.mapIdx fun i j => if i == k then { job := j, pc := .done none } else { job := j }
+  let st : TrTC.St := { c := { shared := s2, locals := locals }, timerTid := k, fired := if preFired then 1 else 0, cur := none }
+  (TrTC.conform st (lines.map (·.1))).map fun r => r ++ "\t-"
 
 end CM
